@@ -461,6 +461,12 @@ def run():
     else:
         groups = classify(mine)
         confirm(o, groups, ctx)
+        # at most 6 defect classes are reported one by one (the evidence keeps the count of the rest)
+        conf = [g for g in groups if g.get("confirmed")]
+        if len(conf) > 6:
+            o.stats["further_confirmed_classes"] = len(conf) - 6
+            keep = set(id(g) for g in conf[:6])
+            groups = [g for g in groups if not g.get("confirmed") or id(g) in keep]
         first = True
         if o.verdict == "violated":
             for g in groups:
